@@ -89,13 +89,16 @@ Section Rot.
     let imag := v_mul axis sin2 in
     mkQ (vx imag) (vy imag) (vz imag) cos2.
 
-  Definition to_new_axes (isnorm : T -> bool) (thr : T) (newz0 newx0 : vec3 T) : quat T :=
+  (* c2 = cos(angle/2), s2 = sin(angle/2) for angle = -atan2(newx'.y, newx'.x) are supplied (libm) *)
+  Definition to_new_axes_x' (isnorm : T -> bool) (thr : T) (newz0 newx0 : vec3 T) : vec3 T * quat T :=
     let newz := v_normalize newz0 in
     let dotprod := v_dot newz newx0 in
     let newx := v_add newx0 (v_mul newz (- dotprod)) in
     let q1 := from_to isnorm thr newz (mkV 0 0 1) in
-    let newx' := rotate newx q1 in
-    let q2 := from_to isnorm thr newx' (mkV 1 0 0) in
+    (rotate newx q1, q1).
+  Definition to_new_axes (isnorm : T -> bool) (thr c2 s2 : T) (newz0 newx0 : vec3 T) : quat T :=
+    let q1 := snd (to_new_axes_x' isnorm thr newz0 newx0) in
+    let q2 := angle_axis c2 s2 (mkV 0 0 1) in
     q_mul q2 q1.
 
   (* reb_rotation_init_orbit; (c,s) pairs are cos/sin of omega/2, inc/2, Omega/2 *)
